@@ -49,6 +49,9 @@ func (eng *Engine) prelude() string {
 			b.WriteString("(assert (distinct " + strings.Join(lits, " ") + "))\n")
 		}
 	}
+	if eng.needStrOfBytes {
+		b.WriteString("(declare-fun gs.ofbytes ((Array Int Int) Int Int) Str)\n")
+	}
 	if eng.needStrConcat {
 		b.WriteString("(declare-fun gs.cat (Str Str) Str)\n")
 		b.WriteString("(assert (forall ((a Str) (b Str)) (= (gs.len (gs.cat a b)) (+ (gs.len a) (gs.len b)))))\n")
